@@ -129,6 +129,19 @@ def rule_r2(p, res):
                             "call:np.sign" in leaves(x, defs) for x in (val.left, val.right)):
                         signed = True
             uses_acos = any(l in ("call:np.arccos", "call:numpy.arccos", "call:math.acos") for l in lv)
+            # the cosine may be guarded against round-off, but only to arccos' own domain [-1, 1]
+            for k in calls_in(f.node):
+                dk = dotted(k.func) or ""
+                if dk in ("np.clip", "numpy.clip") and len(k.args) == 3:
+                    lo, hi = const_value(k.args[1]), const_value(k.args[2])
+                    tgt = [n_.targets[0].id for n_ in walk_own(f.node) if isinstance(n_, ast.Assign) and n_.value is k and isinstance(n_.targets[0], ast.Name)]
+                    feeds = any(isinstance(a, ast.Call) and (dotted(a.func) or "") in ("np.arccos", "numpy.arccos") and (any(k is x for x in ast.walk(a)) or any(isinstance(x, ast.Name) and x.id in tgt for x in ast.walk(a)))
+                                for a in ast.walk(f.node))
+                    if feeds:
+                        r.check(lo == -1 and hi == 1, f, k, "%s clips the cosine to [%s, %s] before arccos: angles whose cosine lies outside that range (here: beyond %s degrees) "
+                                "are reported wrongly; only the full domain [-1, 1] is a harmless round-off guard" % (f.short, lo, hi, "90" if lo == 0 else "?"), {"clip": [lo, hi]})
+                if dk in ("np.abs", "numpy.abs", "abs") and any(isinstance(a, ast.Call) and (dotted(a.func) or "") in ("np.arccos", "numpy.arccos") and any(k is x for x in ast.walk(a)) for a in ast.walk(f.node)):
+                    r.violation(f, k, "%s takes the absolute value of the cosine before arccos: obtuse angles are folded onto acute ones" % f.short)
             if not uses_acos and not signed:
                 raise AnalysisError("C20.R2: angle of %s comes from neither arccos nor arctan2: %s" % (f.short, sorted(lv)))
             r.check(signed, f, ret, "%s returns an angle that only ever passes through arccos (range [0, pi]): the sign of the rotation is lost, "
@@ -428,6 +441,11 @@ WITNESSES = [
             "if degrees:\n        theta = np.deg2rad(theta)", "if not degrees:\n        theta = np.deg2rad(theta)", rule="C20.R1", construct="around_x"),
     Witness("C20.W10", "menpo/transform/homogeneous/scale.py", "Scale",
             "if np.allclose(scale_factor, scale_factor[0]):", "if not np.allclose(scale_factor, scale_factor[0]):", rule="C20.R4", construct="Scale"),
+    Witness("C20.W11", "menpo/transform/homogeneous/rotation.py", "Rotation._axis_and_angle_of_rotation_3d",
+            "angle_of_rotation = np.arccos(np.dot(transformed_vector, perpendicular_vector))", "angle_of_rotation = np.arccos(np.clip(np.dot(transformed_vector, perpendicular_vector), 0.0, 1.0))",
+            rule="C20.R2", construct="_axis_and_angle_of_rotation_3d", note="seeded change C20-A"),
+    Witness("C20.T2", "menpo/transform/homogeneous/rotation.py", "Rotation._axis_and_angle_of_rotation_3d",
+            "angle_of_rotation = np.arccos(np.dot(transformed_vector, perpendicular_vector))", "angle_of_rotation = np.arccos(np.clip(np.dot(transformed_vector, perpendicular_vector), -1.0, 1.0))", kind="T"),
     Witness("C20.T1", "menpo/transform/tcoords.py", "tcoords_to_image_coords",
             "invert_unit_y.compose_before(flip_xy_yx).compose_before(Scale(np.array(image_shape) - 1))",
             "Scale(np.array(image_shape) - 1).compose_after(flip_xy_yx.compose_after(invert_unit_y))", kind="T"),
